@@ -1778,6 +1778,20 @@ type zzC07Group struct {
 
 	covered bool
 	self    bool
+	// took is the destination the real code reached when the group was
+	// executed (-1: not yet).  Where the spec admits several destinations the
+	// planner routes through the one the code takes; states that can only be
+	// reached through the others are not reachable with this code.
+	took int
+}
+
+// planned is the destination the planner expects of g.
+func (g *zzC07Group) planned() (d int) {
+	if g.took >= 0 {
+		return g.took
+	}
+
+	return g.Dsts[0]
 }
 
 type zzC07Cfg struct {
@@ -2096,6 +2110,7 @@ type zzC07Harness struct {
 	actCov                                                                        map[string]int
 	sigCount                                                                      map[string]int
 	visits                                                                        map[int]int
+	barren                                                                        int
 }
 
 // zzC07Run is one walk on one real object.
@@ -2489,7 +2504,7 @@ func (h *zzC07Harness) pick(v int) (g *zzC07Group, covering bool) {
 		n := queue[0]
 		queue = queue[1:]
 		for _, c := range h.in.out[n.v] {
-			d := c.Dsts[0]
+			d := c.planned()
 			if seen[d] || h.dead[d] {
 				continue
 			}
@@ -2527,7 +2542,7 @@ func (h *zzC07Harness) worker(wid int) {
 	cfg := &h.in.cfg
 	for {
 		h.mu.Lock()
-		if cfg.Budget > 0 && h.steps >= cfg.Budget || h.bad > zzC07MaxBad {
+		if cfg.Budget > 0 && h.steps >= cfg.Budget || h.bad > zzC07MaxBad || h.barren > 40 {
 			h.mu.Unlock()
 
 			return
@@ -2562,6 +2577,21 @@ func (h *zzC07Harness) oneWalk(id, init int) {
 	cfg := &h.in.cfg
 	r := h.newRun(id, init)
 	defer func() { r.x.cleanup() }()
+
+	// news counts the edge groups this walk covers.  Walks that cover nothing
+	// (the planner heads for groups that the code never reaches) end the run
+	// after a while.
+	news := 0
+	defer func() {
+		h.mu.Lock()
+		defer h.mu.Unlock()
+
+		if news == 0 {
+			h.barren++
+		} else {
+			h.barren = 0
+		}
+	}()
 
 	// The initial state is observed as well.
 	r.observe(false)
@@ -2624,6 +2654,18 @@ func (h *zzC07Harness) oneWalk(id, init int) {
 
 		before := r.asWalk()
 		status, got := r.do(st)
+		if status == "ok" || status == "unobservable" {
+			h.mu.Lock()
+			if !fuse {
+				g.took = r.cur
+			}
+
+			if covering {
+				news++
+			}
+			h.mu.Unlock()
+		}
+
 		switch status {
 		case "ok":
 			// A step that only moves, or one the spec and the projection both
@@ -2761,6 +2803,7 @@ func zzC07Load(t *testing.T) (in *zzC07Input) {
 				t.Fatalf("bad group line: %v", err)
 			}
 
+			g.took = -1
 			g.self = len(g.Dsts) == 1 && g.Dsts[0] == g.Src
 			in.groups = append(in.groups, g)
 			in.out[g.Src] = append(in.out[g.Src], g)
